@@ -24,19 +24,17 @@ Local Arguments N.div : simpl never.
 Local Arguments N.modulo : simpl never.
 Local Arguments N.pow : simpl never.
 
-Module U := FlacUpdIo.Update.
-Module G := FlacUpdIo.GenUpd.
-Module UP := FlacUpdIo.Update_proofs.
 
-Notation oblk := (U.oblock block).
-Notation blist := (U.blocklist block).
+Notation oblk := (Update.oblock block).
+Notation blist := (Update.blocklist block).
 
 (* ---- the instance *)
-Definition junk : list N := zerosN (G.BLOCK_MAX + 1).
-Definition ser_r (p : block) : list N := match write_body p with Ok l => l | _ => junk end.
-Definition psize_r (p : block) : N := U.lenN (ser_r p).
+(* a thunk, so that the extracted program does not build it at start-up *)
+Definition junk (_ : unit) : list N := zerosN (GenUpd.BLOCK_MAX + 1).
+Definition ser_r (p : block) : list N := match write_body p with Ok l => l | _ => junk tt end.
+Definition psize_r (p : block) : N := Update.lenN (ser_r p).
 (* the "only once" classes of write_blocks (mod.rs:930-973) *)
-Definition uclass_r (_ : U.okind) (p : block) : option N :=
+Definition uclass_r (_ : Update.okind) (p : block) : option N :=
   match p with
   | BSeekTable _ => Some 0
   | BVorbis _ => Some 1
@@ -44,24 +42,24 @@ Definition uclass_r (_ : U.okind) (p : block) : option N :=
   | _ => None
   end.
 
-Definition kind_type (k : U.okind) : btype :=
+Definition kind_type (k : Update.okind) : btype :=
   match k with
-  | U.KApplication => TApplication | U.KSeekTable => TSeekTable | U.KVorbisComment => TVorbis
-  | U.KCuesheet => TCuesheet | U.KPicture => TPicture
+  | Update.KApplication => TApplication | Update.KSeekTable => TSeekTable | Update.KVorbisComment => TVorbis
+  | Update.KCuesheet => TCuesheet | Update.KPicture => TPicture
   end.
 
 (* BlockList <-> Vec<Block> *)
-Definition of_oblock (b : oblk) : block := match b with U.OPadding n => BPadding n | U.OOther _ p => p end.
-Definition of_upd (bl : blist) : list block := U.bl_si block bl :: map of_oblock (U.bl_blocks block bl).
+Definition of_oblock (b : oblk) : block := match b with Update.OPadding n => BPadding n | Update.OOther _ p => p end.
+Definition of_upd (bl : blist) : list block := Update.bl_si block bl :: map of_oblock (Update.bl_blocks block bl).
 Definition to_oblock (b : block) : option oblk :=
   match b with
   | BStreaminfo _ => None
-  | BPadding n => Some (U.OPadding n)
-  | BApplication _ => Some (U.OOther U.KApplication b)
-  | BSeekTable _ => Some (U.OOther U.KSeekTable b)
-  | BVorbis _ => Some (U.OOther U.KVorbisComment b)
-  | BCuesheet _ => Some (U.OOther U.KCuesheet b)
-  | BPicture _ => Some (U.OOther U.KPicture b)
+  | BPadding n => Some (Update.OPadding n)
+  | BApplication _ => Some (Update.OOther Update.KApplication b)
+  | BSeekTable _ => Some (Update.OOther Update.KSeekTable b)
+  | BVorbis _ => Some (Update.OOther Update.KVorbisComment b)
+  | BCuesheet _ => Some (Update.OOther Update.KCuesheet b)
+  | BPicture _ => Some (Update.OOther Update.KPicture b)
   end.
 Fixpoint to_oblocks (l : list block) : option (list oblk) :=
   match l with
@@ -71,15 +69,15 @@ Fixpoint to_oblocks (l : list block) : option (list oblk) :=
 Definition to_upd (l : list block) : option blist :=
   match l with
   | BStreaminfo si :: r =>
-    match to_oblocks r with Some bs => Some (U.Build_blocklist block (BStreaminfo si) bs) | None => None end
+    match to_oblocks r with Some bs => Some (Update.Build_blocklist block (BStreaminfo si) bs) | None => None end
   | _ => None
   end.
 
 (* what the Rust types BlockList / OptionalBlock guarantee about the shape *)
 Definition oshape (b : oblk) : Prop :=
-  match b with U.OPadding _ => True | U.OOther k p => block_type p = kind_type k end.
+  match b with Update.OPadding _ => True | Update.OOther k p => block_type p = kind_type k end.
 Definition shape_ok (bl : blist) : Prop :=
-  (exists si, U.bl_si block bl = BStreaminfo si) /\ Forall oshape (U.bl_blocks block bl).
+  (exists si, Update.bl_si block bl = BStreaminfo si) /\ Forall oshape (Update.bl_blocks block bl).
 
 Lemma to_oblock_of b : oshape b -> to_oblock (of_oblock b) = Some b.
 Proof.
@@ -92,8 +90,8 @@ Proof.
 Qed.
 Lemma to_upd_of_upd bl : shape_ok bl -> to_upd (of_upd bl) = Some bl.
 Proof.
-  intros [[si E] S]. destruct bl as [s bs]. cbn [U.bl_si U.bl_blocks] in *. subst s.
-  unfold of_upd, to_upd. cbn [U.bl_si U.bl_blocks]. rewrite (to_oblocks_of bs S). reflexivity.
+  intros [[si E] S]. destruct bl as [s bs]. cbn [Update.bl_si Update.bl_blocks] in *. subst s.
+  unfold of_upd, to_upd. cbn [Update.bl_si Update.bl_blocks]. rewrite (to_oblocks_of bs S). reflexivity.
 Qed.
 Lemma of_to_oblock b x : to_oblock b = Some x -> of_oblock x = b /\ oshape x.
 Proof. destruct b; cbn [to_oblock]; intros H; inversion H; subst; cbn; auto. Qed.
@@ -113,8 +111,8 @@ Proof.
 Qed.
 
 (* ---- headers and bodies *)
-Lemma lenN_same {A} (l : list A) : U.lenN l = lenN l.
-Proof. unfold U.lenN. rewrite lenN_length. reflexivity. Qed.
+Lemma lenN_same {A} (l : list A) : Update.lenN l = lenN l.
+Proof. unfold Update.lenN. rewrite lenN_length. reflexivity. Qed.
 
 Lemma be_bytes3 size : be_bytes 3 size = [(size / 65536) mod 256; (size / 256) mod 256; size mod 256].
 Proof.
@@ -123,16 +121,16 @@ Proof.
 Qed.
 
 Lemma header_eq last t size : size < 2 ^ 24 ->
-  U.header last (btype_code t) size = write_header (mkHeader last t size).
+  Update.header last (btype_code t) size = write_header (mkHeader last t size).
 Proof.
-  intros H. unfold U.header, write_header. cbn [h_last h_type h_size]. rewrite header_byte_spec, be_bytes3.
+  intros H. unfold Update.header, write_header. cbn [h_last h_type h_size]. rewrite header_byte_spec, be_bytes3.
   cbn [app]. change (2 ^ 24) with 16777216 in H.
   assert (E : (size / 65536) mod 256 = size / 65536).
   { apply N.mod_small. apply N.div_lt_upper_bound; lia. }
   rewrite E. f_equal. destruct last, t; reflexivity.
 Qed.
 
-Lemma lenN_junk : lenN junk = G.BLOCK_MAX + 1.
+Lemma lenN_junk : lenN (junk tt) = GenUpd.BLOCK_MAX + 1.
 Proof. unfold junk. apply lenN_zerosN. Qed.
 
 Lemma zeros_repeat n : repeat 0 (N.to_nat n) = zerosN n.
@@ -150,34 +148,34 @@ Definition good (bl : blist) : Prop :=
 
 (* one block, as update_file's writer and as the metadata writer *)
 Lemma write_block_equiv last b x : ty_block u b ->
-  (U.write_block last (btype_code (block_type b)) (psize_r b) (ser_r b) = Ok x <-> write_block last b = Ok x).
+  (Update.write_block last (btype_code (block_type b)) (psize_r b) (ser_r b) = Ok x <-> write_block last b = Ok x).
 Proof.
-  intros T. unfold U.write_block, psize_r. rewrite lenN_same. unfold ser_r.
+  intros T. unfold Update.write_block, psize_r. rewrite lenN_same. unfold ser_r.
   pose proof (body_size_write u b T) as S. unfold write_block.
   destruct (write_body b) as [body|e|k] eqn:W.
-  - rewrite S. cbn [bind]. unfold BLOCKSIZE_MAX, G.BLOCK_MAX.
+  - rewrite S. cbn [bind]. unfold BLOCKSIZE_MAX, GenUpd.BLOCK_MAX.
     destruct (N.leb_spec (lenN body) 16777215) as [Hle|Hgt].
     + destruct (N.ltb_spec 16777215 (lenN body)) as [|_]; [lia|]. cbn [bind].
       rewrite header_eq by (change (2 ^ 24) with 16777216; lia). reflexivity.
     + destruct (N.ltb_spec 16777215 (lenN body)) as [_|]; [|lia]. split; discriminate.
-  - rewrite lenN_junk. destruct (N.leb_spec (G.BLOCK_MAX + 1) G.BLOCK_MAX) as [|_]; [lia|].
+  - rewrite lenN_junk. destruct (N.leb_spec (GenUpd.BLOCK_MAX + 1) GenUpd.BLOCK_MAX) as [|_]; [lia|].
     destruct S as [e' ->]. cbn [bind]. split; discriminate.
-  - rewrite lenN_junk. destruct (N.leb_spec (G.BLOCK_MAX + 1) G.BLOCK_MAX) as [|_]; [lia|].
+  - rewrite lenN_junk. destruct (N.leb_spec (GenUpd.BLOCK_MAX + 1) GenUpd.BLOCK_MAX) as [|_]; [lia|].
     rewrite S. cbn [bind]. split; discriminate.
 Qed.
 
-Lemma type_code_kind k : U.type_code k = btype_code (kind_type k).
+Lemma type_code_kind k : Update.type_code k = btype_code (kind_type k).
 Proof. destruct k; reflexivity. Qed.
 
 Lemma oblock_write_equiv last (b : oblk) x : oshape b -> ty_block u (of_oblock b) ->
-  (U.write_block last (U.otype block b) (U.osize block psize_r b) (U.obody block ser_r b) = Ok x <->
+  (Update.write_block last (Update.otype block b) (Update.osize block psize_r b) (Update.obody block ser_r b) = Ok x <->
    write_block last (of_oblock b) = Ok x).
 Proof.
-  intros S T. destruct b as [n|k p]; cbn [U.otype U.osize U.obody of_oblock oshape] in *.
-  - cbn [ty_block] in T. unfold U.write_block, write_block. cbn [body_size bind write_body write_padding block_type].
-    unfold BLOCKSIZE_MAX, G.BLOCK_MAX in *.
+  intros S T. destruct b as [n|k p]; cbn [Update.otype Update.osize Update.obody of_oblock oshape] in *.
+  - cbn [ty_block] in T. unfold Update.write_block, write_block. cbn [body_size bind write_body write_padding block_type].
+    unfold BLOCKSIZE_MAX, GenUpd.BLOCK_MAX in *.
     destruct (N.leb_spec n 16777215) as [_|]; [|lia]. destruct (N.ltb_spec 16777215 n) as [|_]; [lia|].
-    cbn [bind]. rewrite zeros_repeat. change G.TY_PADDING with (btype_code TPadding).
+    cbn [bind]. rewrite zeros_repeat. change GenUpd.TY_PADDING with (btype_code TPadding).
     rewrite header_eq by (change (2 ^ 24) with 16777216; lia). reflexivity.
   - rewrite type_code_kind, <- S. apply write_block_equiv. exact T.
 Qed.
@@ -189,24 +187,24 @@ Definition flags_of (seen : list N) : bool * bool * bool * bool :=
 Lemma write_opt_equiv : forall (bs : list oblk) seen y,
   Forall oshape bs -> Forall (ty_block u) (map of_oblock bs) ->
   let '(sk, vc, png, icon) := flags_of seen in
-  (U.write_opt block psize_r ser_r uclass_r seen bs = Ok y <->
+  (Update.write_opt block psize_r ser_r uclass_r seen bs = Ok y <->
    write_rest sk vc png icon (map of_oblock bs) = Ok y).
 Proof.
   induction bs as [|b r IH]; intros seen y S T; unfold flags_of.
-  - cbn [U.write_opt map write_rest]. reflexivity.
+  - cbn [Update.write_opt map write_rest]. reflexivity.
   - inversion S as [|? ? Sb Sr]; subst. cbn [map] in T. inversion T as [|? ? Tb Tr]; subst.
-    cbn [U.write_opt map].
+    cbn [Update.write_opt map].
     set (last := match r with [] => true | _ => false end).
     assert (Elast : match map of_oblock r with [] => true | _ => false end = last) by (destruct r; reflexivity).
     (* one step of each side, given the flags after the step *)
     assert (Step : forall seen',
       (let '(sk', vc', png', icon') := flags_of seen' in
-       ((bytes <- U.write_block last (U.otype block b) (U.osize block psize_r b) (U.obody block ser_r b) ;;
-         rest <- U.write_opt block psize_r ser_r uclass_r seen' r ;; Ok (bytes ++ rest)) = Ok y <->
+       ((bytes <- Update.write_block last (Update.otype block b) (Update.osize block psize_r b) (Update.obody block ser_r b) ;;
+         rest <- Update.write_opt block psize_r ser_r uclass_r seen' r ;; Ok (bytes ++ rest)) = Ok y <->
         (x <- write_block last (of_oblock b) ;; z <- write_rest sk' vc' png' icon' (map of_oblock r) ;; Ok (x ++ z)) = Ok y))).
     { intros seen'. pose proof (IH seen') as IH'. unfold flags_of in *.
       pose proof (fun x => oblock_write_equiv last b x Sb Tb) as Hb.
-      destruct (U.write_block last _ _ _) as [x1| |] eqn:W1;
+      destruct (Update.write_block last _ _ _) as [x1| |] eqn:W1;
         destruct (write_block last (of_oblock b)) as [x2| |] eqn:W2; cbn [bind];
         try (split; discriminate);
         try (exfalso; first [ destruct (proj1 (Hb _) eq_refl); discriminate
@@ -214,15 +212,15 @@ Proof.
                             | pose proof (proj2 (Hb _) eq_refl) as Q; discriminate ]).
       pose proof (proj1 (Hb x1) eq_refl) as Q. inversion Q; subst x2. clear Q Hb.
       split; intros H.
-      - destruct (U.write_opt block psize_r ser_r uclass_r seen' r) as [y1| |] eqn:E1; cbn [bind] in H; try discriminate.
+      - destruct (Update.write_opt block psize_r ser_r uclass_r seen' r) as [y1| |] eqn:E1; cbn [bind] in H; try discriminate.
         rewrite (proj1 (IH' y1 Sr Tr) eq_refl). exact H.
       - destruct (write_rest _ _ _ _ (map of_oblock r)) as [y1| |] eqn:E1; cbn [bind] in H; try discriminate.
         rewrite (proj2 (IH' y1 Sr Tr) eq_refl). exact H. }
     cbn [write_rest]. rewrite Elast.
-    destruct b as [n|k p]; cbn [of_oblock U.check_unique U.oclass bind] in *.
+    destruct b as [n|k p]; cbn [of_oblock Update.check_unique Update.oclass bind] in *.
     + exact (Step seen).
     + cbn [oshape] in Sb.
-      destruct p as [si|n|a|pts|v|c|pic]; cbn [U.check_unique U.oclass uclass_r bind].
+      destruct p as [si|n|a|pts|v|c|pic]; cbn [Update.check_unique Update.oclass uclass_r bind].
       * destruct k; discriminate.
       * exact (Step seen).
       * exact (Step seen).
@@ -231,7 +229,7 @@ Proof.
       * destruct (existsb (N.eqb 1) seen) eqn:F; cbn [bind]; [split; discriminate|].
         specialize (Step (1 :: seen)). unfold flags_of in Step. cbn [existsb N.eqb Pos.eqb orb] in Step. exact Step.
       * exact (Step seen).
-      * unfold U.check_unique. cbn [U.oclass].
+      * unfold Update.check_unique. cbn [Update.oclass].
         change (uclass_r k (BPicture pic)) with (if pic_type pic =? 1 then Some 2 else if pic_type pic =? 2 then Some 3 else None).
         destruct (pic_type pic =? 1) eqn:P1; cbn [bind].
         { destruct (existsb (N.eqb 2) seen) eqn:F; cbn [bind]; [split; discriminate|].
@@ -243,26 +241,26 @@ Proof.
 Qed.
 
 Theorem write_equiv bl bytes : shape_ok bl -> Forall (ty_block u) (of_upd bl) ->
-  (U.write_blocks block psize_r ser_r uclass_r bl = Ok bytes <-> write_blocks (of_upd bl) = Ok bytes).
+  (Update.write_blocks block psize_r ser_r uclass_r bl = Ok bytes <-> write_blocks (of_upd bl) = Ok bytes).
 Proof.
-  intros [[si E] S] T. destruct bl as [s bs]. cbn [U.bl_si U.bl_blocks] in *. subst s.
-  unfold of_upd in *. cbn [U.bl_si U.bl_blocks] in *. inversion T as [|? ? Tsi Tr]; subst.
-  unfold U.write_blocks, write_blocks. cbn [U.bl_si U.bl_blocks].
+  intros [[si E] S] T. destruct bl as [s bs]. cbn [Update.bl_si Update.bl_blocks] in *. subst s.
+  unfold of_upd in *. cbn [Update.bl_si Update.bl_blocks] in *. inversion T as [|? ? Tsi Tr]; subst.
+  unfold Update.write_blocks, write_blocks. cbn [Update.bl_si Update.bl_blocks].
   assert (Elast : match map of_oblock bs with [] => true | _ => false end = match bs with [] => true | _ => false end)
     by (destruct bs; reflexivity).
   rewrite Elast. set (last := match bs with [] => true | _ => false end).
   pose proof (fun x => write_block_equiv last (BStreaminfo si) x Tsi) as Hb. cbn [block_type btype_code] in Hb.
-  change G.TY_STREAMINFO with 0.
+  change GenUpd.TY_STREAMINFO with 0.
   pose proof (write_opt_equiv bs [] ) as Ho. unfold flags_of in Ho. cbn [existsb] in Ho.
-  destruct (U.write_block last 0 (psize_r (BStreaminfo si)) (ser_r (BStreaminfo si))) as [x1| |] eqn:W1;
+  destruct (Update.write_block last 0 (psize_r (BStreaminfo si)) (ser_r (BStreaminfo si))) as [x1| |] eqn:W1;
     destruct (write_block last (BStreaminfo si)) as [x2| |] eqn:W2; cbn [bind];
     try (split; discriminate);
     try (exfalso; first [ pose proof (proj1 (Hb _) eq_refl) as Q; discriminate
                         | pose proof (proj2 (Hb _) eq_refl) as Q; discriminate ]).
   pose proof (proj1 (Hb x1) eq_refl) as Q. inversion Q; subst x2. clear Q Hb.
-  change G.FLAC_TAG with FLAC_TAG.
+  change GenUpd.FLAC_TAG with FLAC_TAG.
   split; intros H.
-  - destruct (U.write_opt block psize_r ser_r uclass_r [] bs) as [y1| |] eqn:E1; cbn [bind] in H; try discriminate.
+  - destruct (Update.write_opt block psize_r ser_r uclass_r [] bs) as [y1| |] eqn:E1; cbn [bind] in H; try discriminate.
     rewrite (proj1 (Ho y1 S Tr) eq_refl). exact H.
   - destruct (write_rest false false false false (map of_oblock bs)) as [y1| |] eqn:E1; cbn [bind] in H; try discriminate.
     rewrite (proj2 (Ho y1 S Tr) eq_refl). exact H.
@@ -353,11 +351,11 @@ Proof.
 Qed.
 
 (* ---- the hypotheses of Update_cond.v *)
-Lemma ser_len_real : forall p, U.lenN (ser_r p) = psize_r p.
+Lemma ser_len_real : forall p, Update.lenN (ser_r p) = psize_r p.
 Proof. reflexivity. Qed.
 
 Theorem read_write_real : forall bl bytes rest, good bl ->
-  U.write_blocks block psize_r ser_r uclass_r bl = Ok bytes -> read_blocks_r (bytes ++ rest) = Ok (bl, rest).
+  Update.write_blocks block psize_r ser_r uclass_r bl = Ok bytes -> read_blocks_r (bytes ++ rest) = Ok (bl, rest).
 Proof.
   intros bl bytes rest (S & T & C) W. apply (write_equiv bl bytes S T) in W.
   unfold read_blocks_r. rewrite (write_blocks_read_rest _ _ rest T C W). rewrite (to_upd_of_upd bl S). reflexivity.
@@ -365,19 +363,19 @@ Qed.
 
 (* a list that was written has every PADDING within 24 bits *)
 Lemma write_opt_padding_fits : forall (bs : list oblk) seen y,
-  U.write_opt block psize_r ser_r uclass_r seen bs = Ok y ->
-  Forall (fun b => match b with U.OPadding n => n <= G.BLOCK_MAX | _ => True end) bs.
+  Update.write_opt block psize_r ser_r uclass_r seen bs = Ok y ->
+  Forall (fun b => match b with Update.OPadding n => n <= GenUpd.BLOCK_MAX | _ => True end) bs.
 Proof.
-  induction bs as [|b r IH]; intros seen y H; [constructor|]. cbn [U.write_opt] in H.
-  destruct (U.check_unique block uclass_r seen b) as [seen'| |]; cbn [bind] in H; try discriminate.
-  destruct (U.write_block _ _ _ _) as [x| |] eqn:W; cbn [bind] in H; try discriminate.
-  destruct (U.write_opt block psize_r ser_r uclass_r seen' r) as [z| |] eqn:E; cbn [bind] in H; try discriminate.
+  induction bs as [|b r IH]; intros seen y H; [constructor|]. cbn [Update.write_opt] in H.
+  destruct (Update.check_unique block uclass_r seen b) as [seen'| |]; cbn [bind] in H; try discriminate.
+  destruct (Update.write_block _ _ _ _) as [x| |] eqn:W; cbn [bind] in H; try discriminate.
+  destruct (Update.write_opt block psize_r ser_r uclass_r seen' r) as [z| |] eqn:E; cbn [bind] in H; try discriminate.
   constructor; [|eapply IH; exact E].
-  destruct b as [n|k p]; [|exact I]. unfold U.write_block in W. cbn [U.osize] in W.
-  destruct (N.leb_spec n G.BLOCK_MAX); [assumption|discriminate].
+  destruct b as [n|k p]; [|exact I]. unfold Update.write_block in W. cbn [Update.osize] in W.
+  destruct (N.leb_spec n GenUpd.BLOCK_MAX); [assumption|discriminate].
 Qed.
 
-Lemma fp_rel_good n n' (bs bs' : list oblk) : UP.fp_rel block n n' bs bs' -> n' <= G.BLOCK_MAX ->
+Lemma fp_rel_good n n' (bs bs' : list oblk) : Update_proofs.fp_rel block n n' bs bs' -> n' <= GenUpd.BLOCK_MAX ->
   Forall oshape bs -> Forall (ty_block u) (map of_oblock bs) ->
   Forall oshape bs' /\ Forall (ty_block u) (map of_oblock bs').
 Proof.
@@ -386,22 +384,22 @@ Proof.
   - inversion S; inversion T; subst. destruct (IH Hn) as [S' T']; auto. split; constructor; auto.
 Qed.
 
-Lemma fp_rel_new_padding n n' (bs bs' : list oblk) : UP.fp_rel block n n' bs bs' ->
-  Forall (fun b => match b with U.OPadding m => m <= G.BLOCK_MAX | _ => True end) bs' -> n' <= G.BLOCK_MAX.
+Lemma fp_rel_new_padding n n' (bs bs' : list oblk) : Update_proofs.fp_rel block n n' bs bs' ->
+  Forall (fun b => match b with Update.OPadding m => m <= GenUpd.BLOCK_MAX | _ => True end) bs' -> n' <= GenUpd.BLOCK_MAX.
 Proof. induction 1; intros F; inversion F; subst; auto. Qed.
 
-Theorem good_fp_real : forall bl1 bl2 bytes, good bl1 -> UP.first_padding_only block bl1 bl2 ->
-  U.write_blocks block psize_r ser_r uclass_r bl2 = Ok bytes -> good bl2.
+Theorem good_fp_real : forall bl1 bl2 bytes, good bl1 -> Update_proofs.first_padding_only block bl1 bl2 ->
+  Update.write_blocks block psize_r ser_r uclass_r bl2 = Ok bytes -> good bl2.
 Proof.
   intros bl1 bl2 bytes (S & T & C) [Esi F] W. destruct bl1 as [s1 b1], bl2 as [s2 b2].
-  cbn [U.bl_si U.bl_blocks] in *. subst s2.
+  cbn [Update.bl_si Update.bl_blocks] in *. subst s2.
   destruct F as [->|(n & n' & R)]; [split; [exact S|split; assumption]|].
-  assert (Hn : n' <= G.BLOCK_MAX).
-  { eapply fp_rel_new_padding; [exact R|]. unfold U.write_blocks in W. cbn [U.bl_si U.bl_blocks] in W.
-    destruct (U.write_block _ _ _ _) as [x| |]; cbn [bind] in W; try discriminate.
-    destruct (U.write_opt block psize_r ser_r uclass_r [] b2) as [z| |] eqn:E; cbn [bind] in W; try discriminate.
+  assert (Hn : n' <= GenUpd.BLOCK_MAX).
+  { eapply fp_rel_new_padding; [exact R|]. unfold Update.write_blocks in W. cbn [Update.bl_si Update.bl_blocks] in W.
+    destruct (Update.write_block _ _ _ _) as [x| |]; cbn [bind] in W; try discriminate.
+    destruct (Update.write_opt block psize_r ser_r uclass_r [] b2) as [z| |] eqn:E; cbn [bind] in W; try discriminate.
     eapply write_opt_padding_fits; exact E. }
-  destruct S as [Hsi S]. unfold of_upd in *. cbn [U.bl_si U.bl_blocks] in *.
+  destruct S as [Hsi S]. unfold of_upd in *. cbn [Update.bl_si Update.bl_blocks] in *.
   inversion T as [|? ? Tsi Tr]; inversion C as [|? ? Csi Cr]; subst.
   destruct (fp_rel_good _ _ _ _ R Hn S Tr) as [S' T'].
   split; [split; assumption|]. split; [constructor; assumption|]. constructor; [assumption|].
